@@ -331,10 +331,31 @@ func (w *WAL) mutateStateLocked(tx stateTxn) error {
 	}
 
 	vhook("mutate.beforeStore", w)
-	w.s.Store(&newS)
-	vhook("mutate.afterStore", w)
-	s.finalizer.Store(fn)
+	w.replaceStateLocked(s, &newS, fn)
 	return nil
+}
+
+// replaceStateLocked makes newS the current state in place of old (which must
+// be the current one, writeMu held) and arranges for fn, if not nil, to be
+// called once old is no longer in use.
+//
+// A reader only holds a reference on the state it loaded, but the files that
+// a later state's finalizer closes are shared with every earlier state that
+// is still being read: a reader holding state A across two changes A->B->C
+// would have the files closed under it by B's finalizer as soon as B (which it
+// never referenced) is released. So each state that gets replaced keeps a
+// reference on its successor until it has been finalized itself, which chains
+// the finalizers in order.
+func (w *WAL) replaceStateLocked(old, newS *state, fn func()) {
+	newS.acquire()
+	w.s.Store(newS)
+	vhook("mutate.afterStore", w)
+	old.finalizer.Store(func() {
+		if fn != nil {
+			fn()
+		}
+		newS.release()
+	})
 }
 
 // abortCommitLocked is called when a state transaction fails at or after the
@@ -356,7 +377,7 @@ func (w *WAL) abortCommitLocked(old, failed *state, cause error) error {
 	}
 	// Nothing about the set of segments changes so there is nothing to finalize
 	// on the old state, we just need later transactions to see the new next ID.
-	w.s.Store(&rollback)
+	w.replaceStateLocked(old, &rollback, nil)
 	return cause
 }
 
@@ -1084,7 +1105,9 @@ func (w *WAL) Close() error {
 	s.acquire()
 	defer s.release()
 
-	w.s.Store(&state{})
+	closedState := &state{}
+	closedState.acquire()
+	w.s.Store(closedState)
 
 	// Old state might be still in use by readers, attach closers to all open
 	// segment files.
@@ -1102,6 +1125,7 @@ func (w *WAL) Close() error {
 	// that same lock.
 	s.finalizer.Store(func() {
 		w.closeSegments(toClose)
+		closedState.release()
 	})
 
 	// Wait for in-flight StableStore calls before closing metaDB under them.
